@@ -84,7 +84,7 @@ func genC19(t *rapid.T, _ *evid.Rec) caseC19 {
 		default:
 			op.Kind, op.Name = "resolve", pickName()
 		}
-		op.ViaCLI = rapid.IntRange(0, 3).Draw(t, "viaCLI") == 0 && !strings.HasPrefix(op.Name, "-") && (op.Kind == "set" || op.Kind == "unset" || op.Kind == "clear")
+		op.ViaCLI = rapid.IntRange(0, 3).Draw(t, "viaCLI") == 0 && !strings.HasPrefix(op.Name, "-")
 		c.Ops = append(c.Ops, op)
 	}
 	// every history ends with a read
@@ -153,6 +153,10 @@ func checkC19(c caseC19) (Outcome, error) {
 		var err error
 		if op.ViaCLI {
 			args := []string{"bookmarks", op.Kind}
+			nameArg := op.Name
+			if nameArg == "" {
+				nameArg = "@default"
+			}
 			switch op.Kind {
 			case "set":
 				if op.Force {
@@ -166,20 +170,32 @@ func checkC19(c caseC19) (Outcome, error) {
 					args = append(args, op.Name)
 				}
 			case "unset":
-				if op.Name == "" {
-					args = append(args, "@default")
-				} else {
-					args = append(args, op.Name)
-				}
+				args = append(args, nameArg)
 			case "clear":
 				args = append(args, "--yes")
+			case "list":
+			case "info":
+				args = append(args, nameArg)
+			case "info-dir":
+				args = []string{"bookmarks", "info", "--dir", nameArg}
+			case "info-file":
+				args = []string{"bookmarks", "info", "--file", nameArg}
+			case "resolve":
+				args = []string{"total", "--decimal", "--no-warn", "--no-style"}
+				if !(name == "default" && len(op.Name) <= 1) {
+					args = append(args, "@"+strings.TrimPrefix(op.Name, "@"))
+				}
 			}
+			// real flag parsing; stdout is captured through a scratch file
+			capture := h.Path("stdout.txt")
+			cf, _ := os.Create(capture)
 			saved := os.Stdout
-			devnull, _ := os.OpenFile(os.DevNull, os.O_WRONLY, 0)
-			os.Stdout = devnull
+			os.Stdout = cf
 			code, rerr := klogmain.Run(app.NewFileOrPanic(filepath.Join(h.dir, "cfg")), app.Meta{}, h.cfg, args)
 			os.Stdout = saved
-			devnull.Close()
+			cf.Close()
+			ob, _ := os.ReadFile(capture)
+			outText = string(ob)
 			if code != 0 {
 				err = app.NewErrorWithCode(app.Code(code), fmt.Sprint(rerr), "", nil)
 			}
@@ -235,7 +251,7 @@ func checkC19(c caseC19) (Outcome, error) {
 					overwrites++
 				}
 				m[name] = file
-				if !op.ViaCLI && !strings.Contains(outText, "@"+name+" -> "+file+"\n") {
+				if !strings.Contains(outText, "@"+name+" -> "+file+"\n") {
 					return fail("op %d: bookmarks set printed %q", oi, outText)
 				}
 			}
